@@ -110,6 +110,7 @@ type batchResult struct {
 	progOf   []int // event index (0-based) -> program index in batch
 	offOf    []int // event index -> step index within the program (0 = Reset)
 	evLines  [][]byte
+	hang     bool // the executor gave up on a library call that did not return
 	wallTLC  float64
 	wallExec float64
 }
@@ -153,7 +154,10 @@ func validate(env *run.Env, bin string, traceMod string, idx int, progs []gen.Pr
 		return r
 	}
 	t0 := time.Now()
-	if r.err = env.Exec(bin, pf, ef, execTimeout(env)); r.err != nil {
+	if err := env.Exec(bin, pf, ef, execTimeout(env)); err == run.ErrHang {
+		r.hang = true // the events recorded before the hang are still validated
+	} else if err != nil {
+		r.err = err
 		return r
 	}
 	r.wallExec = time.Since(t0).Seconds()
@@ -387,27 +391,27 @@ func reproduce(env *run.Env, bin string, c *check, br *batchResult, b badEntry, 
 		return "", false, fmt.Errorf("bad event index %d", b.L)
 	}
 	prog := br.progs[br.progOf[ei]]
+	off := br.offOf[ei]
+	// re-execute the program only up to the offending step (later steps may not even terminate)
+	short := prog
+	if off <= len(prog.Steps) {
+		short.Steps = prog.Steps[:off]
+	}
 	pf := filepath.Join(env.Scratch, fmt.Sprintf("repro%d.prog.ndjson", n))
 	ef := filepath.Join(env.Scratch, fmt.Sprintf("repro%d.ev.ndjson", n))
-	if err := writePrograms(pf, []gen.Program{prog}); err != nil {
+	if err := writePrograms(pf, []gen.Program{short}); err != nil {
 		return "", false, err
 	}
-	if err := env.Exec(bin, pf, ef, 10*time.Minute); err != nil {
+	if err := env.Exec(bin, pf, ef, 10*time.Minute); err != nil && err != run.ErrHang {
 		return "", false, err
 	}
 	lines, err := readLines(ef)
 	if err != nil {
 		return "", false, err
 	}
-	off := br.offOf[ei]
 	same := off < len(lines) && string(lines[off]) == string(br.evLines[ei])
 	var obs any
 	json.Unmarshal(truncJSON(br.evLines[ei]), &obs)
-	// keep the program only up to the offending step
-	short := prog
-	if off <= len(prog.Steps) {
-		short.Steps = prog.Steps[:off]
-	}
 	dir := filepath.Join(env.Home, "replays")
 	os.MkdirAll(dir, 0o755)
 	path := filepath.Join(dir, fmt.Sprintf("%s-%s-%d-%d.json", c.id, env.Tier, env.Seed, n))
@@ -604,16 +608,21 @@ func runCheck(env *run.Env, c *check) int {
 			if err != nil {
 				die("reproduce: %v", err)
 			}
-			if !same && isPar(r, b) {
-				// concurrent executions are not bit-reproducible: re-run the program a few times and let TLC
-				// judge each run; the violation counts if the same property is violated again
-				for try := 0; try < 5 && !same; try++ {
+			if !same {
+				// The re-executed event is not byte-identical (goroutine schedules; wrong results that depend on
+				// uninitialised scratch memory). Re-run the program and let TLC judge each run: the violation counts
+				// if the same property is violated again (at the same step for sequential programs).
+				tries := 1
+				if isPar(r, b) {
+					tries = 5
+				}
+				for try := 0; try < tries && !same; try++ {
 					rr := validate(env, bin, c.trace, 1000+nrep*10+try, []gen.Program{r.progs[r.progOf[b.L-1]]}, 3000)
 					if rr.err != nil {
 						die("reproduce: %v", rr.err)
 					}
 					for _, e := range rr.bad {
-						if e.PID == b.PID {
+						if e.PID == b.PID && (isPar(r, b) || rr.offOf[e.L-1] == r.offOf[b.L-1]) {
 							same = true
 						}
 					}
@@ -709,6 +718,11 @@ func runCheck(env *run.Env, c *check) int {
 	logf("%d programs, %d events validated, %d cells, %d violations, %.1fs", len(progs), events, distinct, violations, time.Since(start).Seconds())
 	if violations > 0 {
 		return 1
+	}
+	for _, r := range results {
+		if r.hang {
+			die("a library call did not return within the step timeout in batch %d and no violation was found in the events recorded before it (slow operation or a hang: inspect the programs with bin/vcheck dump)", r.idx)
+		}
 	}
 	if len(missing) > 0 {
 		fmt.Fprintf(os.Stderr, "vcheck: vacuous run: required coverage cells never hit: %v\n", missing)
